@@ -110,13 +110,164 @@ def strip_doc(body):
     return body
 
 
-def same_shape(fn, expected_src, holes):
-    """Compare a function body with an expected source text; string constants named in `holes`
-    ({placeholder text: key}) are extracted instead of compared.  -> {key: actual string}"""
-    exp = ast.parse(expected_src).body[0]
+# ------------------------------------------------------------------------- canonical form of a choke-point function
+# Only what takes part in the access path is compared.  Statements and sub-expressions that merely FORMAT text
+# (logger calls; the arguments of an exception constructor that the expected shape marks IGNORED; throw-away locals
+# read only there) are transparent, provided they are pure: constants, names, attribute reads, str.format/join/
+# capitalize/split/..., list comprehensions over those, and calls of helper methods of the class that are themselves a
+# single `return <pure formatting expression>` (e.g. KmipEngine._get_enum_string).  Local variable and parameter names
+# are compared up to consistent renaming.  Everything else is compared node by node and fails closed.
+PURE_STR_METHODS = {'format', 'join', 'capitalize', 'split', 'title', 'lower', 'upper', 'strip', 'replace'}
+
+
+def pure_formatting(node, pure_helpers):
+    """True when evaluating `node` can only read names/attributes and build text."""
+    if isinstance(node, (ast.Constant, ast.Name)):
+        return True
+    if isinstance(node, ast.Attribute):
+        return pure_formatting(node.value, pure_helpers)
+    if isinstance(node, (ast.Tuple, ast.List)):
+        return all(pure_formatting(e, pure_helpers) for e in node.elts)
+    if isinstance(node, ast.Subscript):
+        return pure_formatting(node.value, pure_helpers) and pure_formatting(node.slice, pure_helpers)
+    if isinstance(node, ast.BinOp) and isinstance(node.op, (ast.Add, ast.Mod)):
+        return pure_formatting(node.left, pure_helpers) and pure_formatting(node.right, pure_helpers)
+    if isinstance(node, ast.JoinedStr):
+        return all(pure_formatting(v, pure_helpers) for v in node.values)
+    if isinstance(node, ast.FormattedValue):
+        return pure_formatting(node.value, pure_helpers)
+    if isinstance(node, (ast.ListComp, ast.GeneratorExp)):
+        return (pure_formatting(node.elt, pure_helpers) and
+                all(isinstance(g.target, ast.Name) and pure_formatting(g.iter, pure_helpers) and
+                    all(pure_formatting(c, pure_helpers) for c in g.ifs) and not g.is_async for g in node.generators))
+    if isinstance(node, ast.Call):
+        if node.keywords and any(k.arg is None for k in node.keywords):
+            return False
+        args_ok = (all(pure_formatting(x, pure_helpers) for x in node.args) and
+                   all(pure_formatting(k.value, pure_helpers) for k in node.keywords))
+        f = node.func
+        if isinstance(f, ast.Attribute) and is_self_attr(f, f.attr) and f.attr in pure_helpers:
+            return args_ok
+        if isinstance(f, ast.Attribute) and f.attr in PURE_STR_METHODS and not is_self_attr(f, f.attr):
+            return args_ok and pure_formatting(f.value, pure_helpers)
+        return False
+    return False
+
+
+def find_pure_helpers(fns):
+    """methods `def m(self, ...): return <pure formatting expression>` (no decorators, no defaults that call anything)"""
+    out = set()
+    for name, fn in fns.items():
+        body = strip_doc(fn.body)
+        if (len(body) == 1 and isinstance(body[0], ast.Return) and body[0].value is not None and not fn.decorator_list
+                and pure_formatting(body[0].value, set())):
+            out.add(name)
+    return out
+
+
+def is_logger_stmt(st, pure_helpers):
+    return (isinstance(st, ast.Expr) and isinstance(st.value, ast.Call) and isinstance(st.value.func, ast.Attribute)
+            and is_self_attr(st.value.func.value, '_logger')
+            and st.value.func.attr in ('debug', 'info', 'warning', 'error', 'exception', 'critical')
+            and all(pure_formatting(x, pure_helpers) for x in st.value.args)
+            and all(k.arg is not None and pure_formatting(k.value, pure_helpers) for k in st.value.keywords))
+
+
+def canonical(fn, pure_helpers):
+    """-> normalised deep copy of a FunctionDef (see the comment above)."""
+    import copy as _copy
+    fn = _copy.deepcopy(fn)
+    fn.body = strip_doc(fn.body)
+
+    # 1. logger statements are transparent
+    def drop_loggers(body):
+        out = []
+        for st in body:
+            if is_logger_stmt(st, pure_helpers):
+                continue
+            for field in ('body', 'orelse', 'finalbody'):
+                if isinstance(getattr(st, field, None), list) and getattr(st, field) and isinstance(getattr(st, field)[0], ast.stmt):
+                    setattr(st, field, drop_loggers(getattr(st, field)) or ([ast.Pass()] if field == 'body' else []))
+            if isinstance(st, ast.Try):
+                for h in st.handlers:
+                    h.body = drop_loggers(h.body) or [ast.Pass()]
+            out.append(st)
+        return out
+    fn.body = drop_loggers(fn.body) or [ast.Pass()]
+
+    # 2. throw-away locals: `t = <name/attribute chain>` where t is read only inside the arguments of exception constructors
+    def raise_arg_names(node):
+        names = []
+        for n in ast.walk(node):
+            if isinstance(n, ast.Raise) and isinstance(n.exc, ast.Call):
+                for x in list(n.exc.args) + [k.value for k in n.exc.keywords]:
+                    names += [m for m in ast.walk(x) if isinstance(m, ast.Name) and isinstance(m.ctx, ast.Load)]
+        return names
+    in_raise = {id(n) for n in raise_arg_names(fn)}
+    loads_elsewhere, stores = {}, {}
+    for n in ast.walk(fn):
+        if isinstance(n, ast.Name):
+            if isinstance(n.ctx, ast.Load) and id(n) not in in_raise:
+                loads_elsewhere[n.id] = loads_elsewhere.get(n.id, 0) + 1
+            elif isinstance(n.ctx, ast.Store):
+                stores[n.id] = stores.get(n.id, 0) + 1
+
+    def chain(v):
+        return isinstance(v, ast.Name) or (isinstance(v, ast.Attribute) and chain(v.value))
+
+    def drop_throwaway(body):
+        out = []
+        for st in body:
+            if (isinstance(st, ast.Assign) and len(st.targets) == 1 and isinstance(st.targets[0], ast.Name)
+                    and chain(st.value) and stores.get(st.targets[0].id) == 1 and not loads_elsewhere.get(st.targets[0].id)):
+                continue
+            for field in ('body', 'orelse', 'finalbody'):
+                if isinstance(getattr(st, field, None), list) and getattr(st, field) and isinstance(getattr(st, field)[0], ast.stmt):
+                    setattr(st, field, drop_throwaway(getattr(st, field)) or ([ast.Pass()] if field == 'body' else []))
+            if isinstance(st, ast.Try):
+                for h in st.handlers:
+                    h.body = drop_throwaway(h.body) or [ast.Pass()]
+            out.append(st)
+        return out
+    fn.body = drop_throwaway(fn.body) or [ast.Pass()]
+
+    # 3. parameters and locals up to renaming (in order of first binding)
+    ren = {}
+    for a in fn.args.posonlyargs + fn.args.args + fn.args.kwonlyargs:
+        if a.arg != 'self':
+            ren.setdefault(a.arg, 'v%d' % len(ren))
+    class Binders(ast.NodeVisitor):
+        def visit_Name(self, n):
+            if isinstance(n.ctx, ast.Store):
+                ren.setdefault(n.id, 'v%d' % len(ren))
+        def visit_ExceptHandler(self, h):
+            if h.name:
+                ren.setdefault(h.name, 'v%d' % len(ren))
+            self.generic_visit(h)
+    Binders().visit(fn)
+    for n in ast.walk(fn):
+        if isinstance(n, ast.Name) and n.id in ren:
+            n.id = ren[n.id]
+        elif isinstance(n, ast.arg) and n.arg in ren:
+            n.arg = ren[n.arg]
+        elif isinstance(n, ast.ExceptHandler) and n.name in ren:
+            n.name = ren[n.name]
+    return fn
+
+
+def same_shape(fn, expected_src, holes, pure_helpers=frozenset()):
+    """Compare a function with an expected source text, both in canonical form; string constants named in `holes`
+    ({placeholder text: key}) are extracted instead of compared; the expected name IGNORED stands for any pure
+    formatting expression.  -> {key: actual string}"""
+    exp = canonical(ast.parse(expected_src).body[0], pure_helpers)
+    act = canonical(fn, pure_helpers)
     got = {}
 
     def walk(a, b, path):
+        if isinstance(b, ast.Name) and b.id == 'IGNORED':
+            if not (isinstance(a, ast.AST) and pure_formatting(a, pure_helpers)):
+                raise Unrecognised('%s: %s is not a pure formatting expression' % (fn.name, path))
+            return
         if isinstance(b, ast.Constant) and isinstance(b.value, str) and b.value in holes:
             if not (isinstance(a, ast.Constant) and isinstance(a.value, str)):
                 raise Unrecognised('%s: expected a string constant at %s' % (fn.name, path))
@@ -137,8 +288,8 @@ def same_shape(fn, expected_src, holes):
         elif a != b:
             raise Unrecognised('%s: %s is %r, expected %r' % (fn.name, path, a, b))
 
-    walk(strip_doc(fn.body), strip_doc(exp.body), 'body')
-    walk(fn.args, exp.args, 'args')
+    walk(act.body, exp.body, 'body')
+    walk(act.args, exp.args, 'args')
     return got
 
 
@@ -151,30 +302,15 @@ def _get_object_type(self, unique_identifier):
             objects.ManagedObject.unique_identifier == unique_identifier
         ).one()[0]
     except exc.NoResultFound:
-        self._logger.warning(
-            "@LOG1".format(
-                unique_identifier
-            )
-        )
         raise exceptions.ItemNotFound(
             "@NOTFOUND".format(unique_identifier)
         )
     except exc.MultipleResultsFound as e:
-        self._logger.warning(
-            "@LOG2".format(
-                unique_identifier
-            )
-        )
         raise e
 
     class_type = self._object_map.get(object_type)
     if class_type is None:
-        name = object_type.name
-        raise exceptions.InvalidField(
-            "@TEMPLATE".format(
-                ''.join([x.capitalize() for x in name.split('_')])
-            )
-        )
+        raise exceptions.InvalidField(IGNORED)
 
     return class_type
 '''
@@ -326,10 +462,12 @@ def gen_handler_access_ops(repo):
                  '_process_operation', '_is_allowed_by_operation_policy'):
         if need not in fns:
             raise Unrecognised('method %s is missing' % need)
-    h1 = same_shape(fns['_get_object_type'], EXPECT_GET_OBJECT_TYPE,
-                    {'@LOG1': 'log1', '@LOG2': 'log2', '@NOTFOUND': 'notfound', '@TEMPLATE': 'template'})
-    h2 = same_shape(fns['_get_object_with_access_controls'], EXPECT_GET_WITH_AC, {'@DENIED': 'denied'})
-    same_shape(fns['_list_objects_with_access_controls'], EXPECT_LIST_WITH_AC, {})
+    pure_helpers = find_pure_helpers(fns)
+    h1 = same_shape(fns['_get_object_type'], EXPECT_GET_OBJECT_TYPE, {'@NOTFOUND': 'notfound'}, pure_helpers)
+    h2 = same_shape(fns['_get_object_with_access_controls'], EXPECT_GET_WITH_AC, {'@DENIED': 'denied'}, pure_helpers)
+    same_shape(fns['_list_objects_with_access_controls'], EXPECT_LIST_WITH_AC, {}, pure_helpers)
+    if 'notfound' not in h1 or 'denied' not in h2:
+        raise Unrecognised('message formats of the choke point not found')
 
     # --- every write of the owner column / use of the choke points in the class
     handlers = []
